@@ -1,6 +1,8 @@
 #![feature(allocator_api)]
-#![allow(unused_imports, dead_code, unused_variables, unused_mut)]
+#![allow(unused_imports, dead_code, unused_variables, unused_mut, non_snake_case, suspicious_double_ref_op)]
 use vstd::prelude::*;
+use vstd::string::*;
+use core::marker::PhantomData;
 use vstd::std_specs::cmp::*;
 use vstd::std_specs::convert::*;
 use std::cmp::{self, Ord, Ordering, PartialOrd};
